@@ -121,9 +121,134 @@ def reentrant_fanout():
                 else:
                     sig[key] = {"clause": key[0], "disc": key[1], "what": what, "count": 1, "replay": {"reentrant": True}}
     real_connection_fanout(res, sig)
+    faulty_client_fanout(res, sig)
+    shared_message_fanout(res, sig)
     res["violations"] = list(sig.values())
     res["states"] = 1
     return res
+
+
+def _sig(sig, key, what):
+    if key in sig:
+        sig[key]["count"] += 1
+    else:
+        sig[key] = {"clause": key[0], "disc": key[1], "what": what, "count": 1, "replay": {"reentrant": True}}
+
+
+def faulty_client_fanout(res, sig):
+    """histories with a FAILING client: a client whose handler raises k times (the exception escapes to whoever routed
+    the message); every later device message still reaches every registered client exactly once"""
+    import indi.message as M
+    from indi.message import one_parts
+    from indi.routing import Client, Router
+
+    for k in (1, 2, 3):
+        for pos in (0, 1, 2):  # position of the failing client in registration order
+            router = Router()
+            logs = {}
+
+            class Rec(Client):
+                def __init__(self, name, fails=0):
+                    self.name, self.fails = name, fails
+                    logs[name] = []
+
+                def message_from_device(self, message):
+                    if self.fails:
+                        self.fails -= 1
+                        raise RuntimeError("client failure")
+                    logs[self.name].append(message.children[0].value)
+
+            clients = [Rec("a"), Rec("b")]
+            clients.insert(pos, Rec("flaky", fails=k))
+            for c in clients:
+                router.register_client(c)
+            exc = None
+            for i in range(k + 2):
+                try:
+                    router.process_message(M.SetTextVector(device="D", name="V", state="Ok", children=[one_parts.OneText(name="a", value="m%d" % i)]), sender=None)
+                except RuntimeError:
+                    pass
+                except Exception as e:  # noqa
+                    exc = e
+            res["transitions"] += k + 2
+            res["sends"] += k + 2
+            later = ["m%d" % i for i in range(k, k + 2)]
+            for name, log in logs.items():
+                res["deliveries"] += len(log)
+                if exc is not None or [v for v in log if v in later] != later or len(set(log)) != len(log):
+                    _sig(sig, ("delivery-set", "after-a-client-failed"), "failing client at position %d failed %d times: client %s got %r, expected (at least) %r once each (%r)" % (pos, k, name, log, later, exc))
+
+
+def shared_message_fanout(res, sig):
+    """a driver's in-process snooping client is registered next to a recording client: what the recorder receives (as
+    serialised at the moment of delivery) must not depend on the snooping client's policy or registration position"""
+    import base64
+
+    import indi.message as M
+    from indi.device.values import BLOB
+    from indi.routing import Client
+
+    from mc.core import e2e
+    from mc.gen import deploy as DP
+    from mc.ref import xmlview as X
+
+    payload = bytes(range(256)) * 3
+    outcomes = {}
+    for first in ("snoop", "recorder"):
+        for pol in (None, "Never", "Also", "Only"):
+            w = e2e.World(DP.deployment(variant="blob", ndev=2))
+            try:
+                got = []
+
+                class Rec(Client):
+                    def message_from_device(self, message):
+                        got.append(message.to_string().decode("latin1"))
+
+                rec = Rec()
+                if first == "recorder":
+                    w.router.register_client(rec)
+                snoop = w.devices[1].snoop_device("DEV0")
+                w.settle()
+                if first == "snoop":
+                    w.router.register_client(rec)
+                w.router.process_message(M.EnableBLOB(device="DEV0", value="Also"), sender=rec)
+                if pol:
+                    w.router.process_message(M.EnableBLOB(device="DEV0", value=pol), sender=snoop)
+                del got[:]
+                exc = None
+                try:
+                    vec = getattr(w.devices[0], w.specs[0]["groups"][0]["attr"]).vectors["t"]
+                    vec.a.value = BLOB(payload, ".bin")
+                    w.settle()
+                    vec.state_ = "Busy"
+                    w.settle()
+                except Exception as e:  # noqa
+                    exc = e
+                res["transitions"] += 2
+                res["sends"] += 2
+                res["deliveries"] += len(got)
+                blobs = []
+                for text in got:
+                    if "<setBLOBVector" in text:
+                        body = text.split("<oneBLOB", 1)[1].split(">", 1)[1].split("</oneBLOB>")[0] if "</oneBLOB>" in text else ""
+                        try:
+                            blobs.append(base64.b64decode(body))
+                        except Exception:
+                            blobs.append(None)
+                d = "snooping-client-%s,registered-%s" % (pol or "unset", "first" if first == "snoop" else "second")
+                if exc is not None:
+                    from mc import lib
+
+                    _sig(sig, ("raises", "shared-message," + lib.exc_site(exc)), repr(exc))
+                elif len(blobs) != 2 or any(b != payload for b in blobs):
+                    _sig(sig, ("delivery-content", d), "an Also client received %d setBLOBVector(s) with payload sizes %r, expected 2 x %d bytes" % (len(blobs), [None if b is None else len(b) for b in blobs], len(payload)))
+                outcomes[(first, pol)] = got
+            finally:
+                w.close()
+    ref = outcomes.get(("snoop", None))
+    for k2, got in outcomes.items():
+        if got != ref:
+            _sig(sig, ("policy-independence", "snooping-client-%s,registered-%s" % (k2[1] or "unset", "first" if k2[0] == "snoop" else "second")), "what an Also client receives differs from the run with an unset snooping client registered first")
 
 
 def real_connection_fanout(res, sig):
